@@ -18,7 +18,7 @@ func init() {
 	scenarios["C16"] = func(ctx *Ctx) { cUDP(ctx, "C16") }
 }
 
-const udpNatTimeout = 1500 * time.Millisecond
+const udpNatTimeout = 3 * time.Second
 
 type udpOp struct {
 	Kind    string   `json:"kind"` // honest garbage trunc expire
@@ -27,7 +27,6 @@ type udpOp struct {
 	Key     string   `json:"key,omitempty"`
 	Seed    uint32   `json:"seed,omitempty"`
 	AKind   int      `json:"akind,omitempty"`
-	Target  int      `json:"target,omitempty"`
 	PLen    int      `json:"plen,omitempty"`
 	PSeed   int      `json:"pseed,omitempty"`
 	Replies [][2]int `json:"replies,omitempty"`
@@ -88,45 +87,33 @@ func (r *recUDP) snapshot(from int) []udpEv {
 func (r *recUDP) count() int { r.mu.Lock(); defer r.mu.Unlock(); return len(r.evs) }
 
 type udpReplyObs struct {
+	Status   string
 	From     []byte
 	Body     []byte
 	TB, CB   int64
 	WrongDst bool
 }
 type udpOpObs struct {
-	Forwarded bool
-	SrcPort   int
-	SockIdx   int
-	Payload   []byte
-	NewKey    *string
-	Report    *udpEv
-	Replies   []udpReplyObs
-	Removed   int
-	Stray     int // datagrams that arrived at a client that did not send
-	Stale     int // datagrams at a target that do not belong to this operation
-	Err       string
+	Forwarded  bool
+	ArrivedAt  string
+	SrcPort    int
+	SockIdx    int
+	Payload    []byte
+	NewKey     *string
+	Report     *udpEv
+	Replies    []udpReplyObs
+	Removed    int
+	Stray      int // datagrams that arrived at a client that did not send
+	recv       [][]byte
+	Unreported int // datagrams that reached the client without an OK report
+	Stale      int // datagrams at a target that do not belong to this operation
+	Err        string
 }
 
 type udpTargetMsg struct {
 	payload []byte
 	src     *net.UDPAddr
-	target  int
-}
-
-func udpTargetAddrBytes(akind, port int) []byte {
-	p := []byte{byte(port >> 8), byte(port)}
-	switch akind {
-	case 0:
-		return append([]byte{1, 127, 0, 0, 1}, p...)
-	case 1:
-		b := append([]byte{4}, make([]byte, 15)...)
-		return append(append(b, 1), p...)
-	case 2:
-		return append(append([]byte{3, 9}, []byte("localhost")...), p...)
-	case 3:
-		return append(append([]byte{3, 9}, []byte("127.0.0.1")...), p...)
-	}
-	return []byte{9, 1, 2, 3, 4, 5, 6}
+	target  string // address of the socket that received it
 }
 
 func sealDgram(key *shadowsocks.EncryptionKey, salt, plaintext []byte) []byte {
@@ -146,7 +133,7 @@ func runUDPCase(cs *udpCaseSpec) (obs []udpOpObs, tports []int, fatal string, sh
 	if !cs.Validate {
 		h.SetTargetIPValidator(func(net.IP) error { return nil })
 	}
-	srv, err := net.ListenPacket("udp", "127.0.0.1:0")
+	srv, err := net.ListenPacket("udp", ":0") // dual stack: IPv4 and IPv6 clients
 	if err != nil {
 		return nil, nil, "listen: " + err.Error(), 0
 	}
@@ -167,34 +154,46 @@ func runUDPCase(cs *udpCaseSpec) (obs []udpOpObs, tports []int, fatal string, sh
 		case <-time.After(2 * time.Second):
 		}
 	}()
-	// targets: 0,1 on 127.0.0.1 ; 2 on ::1
+	// one scripted target / sink per local address of the target-kind table
+	avail := ensureLocalAddrs()
 	tch := make(chan udpTargetMsg, 64)
-	var targets []*net.UDPConn
-	for i, a := range []string{"127.0.0.1:0", "127.0.0.1:0", "[::1]:0"} {
-		pc, err := net.ListenPacket("udp", a)
-		if err != nil {
-			return nil, nil, "target listen: " + err.Error(), 0
+	targets := map[string]*net.UDPConn{}
+	for _, k := range targetKinds {
+		if k.ip == "" || targets[k.ip] != nil {
+			continue
 		}
-		uc := pc.(*net.UDPConn)
-		targets = append(targets, uc)
-		tports = append(tports, uc.LocalAddr().(*net.UDPAddr).Port)
-		defer uc.Close()
-		go func(i int, uc *net.UDPConn) {
-			buf := make([]byte, 70000)
-			for {
-				n, src, err := uc.ReadFromUDP(buf)
-				if err != nil {
-					return
-				}
-				tch <- udpTargetMsg{append([]byte{}, buf[:n]...), src, i}
+		if net.ParseIP(k.ip).IsLoopback() || avail[k.ip] {
+			pc, err := net.ListenPacket("udp", net.JoinHostPort(k.ip, "0"))
+			if err != nil {
+				return nil, nil, "target listen " + k.ip + ": " + err.Error(), 0
 			}
-		}(i, uc)
+			uc := pc.(*net.UDPConn)
+			targets[k.ip] = uc
+			defer uc.Close()
+			go func(ip string, uc *net.UDPConn) {
+				buf := make([]byte, 70000)
+				for {
+					n, src, err := uc.ReadFromUDP(buf)
+					if err != nil {
+						return
+					}
+					tch <- udpTargetMsg{append([]byte{}, buf[:n]...), src, ip}
+				}
+			}(k.ip, uc)
+		}
+	}
+	for i := range targetKinds {
+		port := 9
+		if uc := targets[targetKinds[i].ip]; uc != nil {
+			port = uc.LocalAddr().(*net.UDPAddr).Port
+		}
+		tports = append(tports, port)
 	}
 	// clients: distinct IPs and ports
-	clientIPs := []string{"127.0.0.1", "127.0.0.1", "127.0.0.2", "127.0.0.3"}
+	clientIPs := []string{"127.0.0.1", "127.0.0.1", "127.0.0.2", "127.0.0.3", "::1"}
 	var clients []*net.UDPConn
 	for _, ip := range clientIPs {
-		pc, err := net.ListenPacket("udp", ip+":0")
+		pc, err := net.ListenPacket("udp", net.JoinHostPort(ip, "0"))
 		if err != nil {
 			return nil, nil, "client listen: " + err.Error(), 0
 		}
@@ -207,7 +206,7 @@ func runUDPCase(cs *udpCaseSpec) (obs []udpOpObs, tports []int, fatal string, sh
 		var ob udpOpObs
 		mark := rec.count()
 		if op.Kind == "expire" {
-			time.Sleep(udpNatTimeout + 500*time.Millisecond)
+			time.Sleep(udpNatTimeout + 400*time.Millisecond)
 			for _, e := range rec.snapshot(mark) {
 				if e.Kind == "remove" {
 					ob.Removed++
@@ -218,29 +217,29 @@ func runUDPCase(cs *udpCaseSpec) (obs []udpOpObs, tports []int, fatal string, sh
 		}
 		key := mkKey(op.C, op.S)
 		var pkt []byte
-		tgt := op.Target
-		if op.AKind == 1 {
-			tgt = 2
-		}
-		tport := targets[tgt].LocalAddr().(*net.UDPAddr).Port
+		tport := tports[op.AKind]
 		payload := genBytes(op.PLen, uint32(op.PSeed))
 		switch op.Kind {
 		case "garbage":
 			pkt = genBytes(op.N, op.Seed)
 		case "trunc":
-			full := sealDgram(key, genBytes(saltSizes[op.C], op.Seed), append(udpTargetAddrBytes(0, 9), genBytes(10, 3)...))
+			full := sealDgram(key, genBytes(saltSizes[op.C], op.Seed), append(socksAddrBytes(0, 9), genBytes(10, 3)...))
 			pkt = full[:op.N]
 		default:
-			pkt = sealDgram(key, genBytes(saltSizes[op.C], op.Seed), append(udpTargetAddrBytes(op.AKind, tport), payload...))
+			pkt = sealDgram(key, genBytes(saltSizes[op.C], op.Seed), append(socksAddrBytes(op.AKind, tport), payload...))
 		}
 		c := clients[op.Client]
-		if _, err := c.WriteTo(pkt, srv.LocalAddr()); err != nil {
+		srvAddr := &net.UDPAddr{IP: net.IPv4(127, 0, 0, 1), Port: srv.LocalAddr().(*net.UDPAddr).Port}
+		if op.Client == 4 {
+			srvAddr.IP = net.IPv6loopback
+		}
+		if _, err := c.WriteTo(pkt, srvAddr); err != nil {
 			ob.Err = "client write: " + err.Error()
 		}
 		// wait for the datagram to show up at a target (matched by payload: a late datagram of an
 		// earlier operation must not be attributed to this one), for a rejection report, or for silence
 		var got *udpTargetMsg
-		waitUntil := time.Now().Add(250 * time.Millisecond)
+		waitUntil := time.Now().Add(150 * time.Millisecond)
 	wait:
 		for time.Now().Before(waitUntil) {
 			select {
@@ -262,35 +261,32 @@ func runUDPCase(cs *udpCaseSpec) (obs []udpOpObs, tports []int, fatal string, sh
 		if got != nil {
 			m := *got
 			ob.Forwarded = true
+			ob.ArrivedAt = m.target
 			ob.Payload = m.payload
 			ob.SrcPort = m.src.Port
 			if _, ok := portIdx[m.src.Port]; !ok {
 				portIdx[m.src.Port] = len(portIdx)
 			}
 			ob.SockIdx = portIdx[m.src.Port]
+			var recv [][]byte
 			for _, rp := range op.Replies {
 				targets[m.target].WriteToUDP(genBytes(rp[0], uint32(rp[1])), m.src)
 				buf := make([]byte, 70000)
-				c.SetReadDeadline(time.Now().Add(400 * time.Millisecond))
-				n, _, err := c.ReadFrom(buf)
-				if err != nil {
-					continue
+				wait := 400 * time.Millisecond
+				if rp[0] > 60000 {
+					wait = 150 * time.Millisecond // oversized replies are expected to be dropped
 				}
-				pt, err := shadowsocks.Unpack(nil, buf[:n], key)
-				ro := udpReplyObs{CB: int64(n)}
-				if err == nil {
-					if a := socks.SplitAddr(pt); a != nil {
-						ro.From = append([]byte{}, a...)
-						ro.Body = append([]byte{}, pt[len(a):]...)
-					}
+				c.SetReadDeadline(time.Now().Add(wait))
+				if n, _, err := c.ReadFrom(buf); err == nil {
+					recv = append(recv, append([]byte{}, buf[:n]...))
 				}
-				ob.Replies = append(ob.Replies, ro)
 			}
+			ob.recv = recv
 		}
 		// let the metric events of this datagram arrive
 		want := 0
 		if ob.Forwarded {
-			want = 1 + len(ob.Replies)
+			want = 1 + len(op.Replies)
 		}
 		deadline := time.Now().Add(150 * time.Millisecond)
 		for time.Now().Before(deadline) {
@@ -315,14 +311,22 @@ func runUDPCase(cs *udpCaseSpec) (obs []udpOpObs, tports []int, fatal string, sh
 			case "pktclient":
 				ob.Report = &e
 			case "pkttarget":
-				if ri < len(ob.Replies) {
-					ob.Replies[ri].TB, ob.Replies[ri].CB = e.A, e.B
+				ro := udpReplyObs{Status: e.Status, TB: e.A, CB: e.B}
+				if e.Status == "OK" && ri < len(ob.recv) {
+					if pt, err := shadowsocks.Unpack(nil, ob.recv[ri], key); err == nil {
+						if a := socks.SplitAddr(pt); a != nil {
+							ro.From = append([]byte{}, a...)
+							ro.Body = append([]byte{}, pt[len(a):]...)
+						}
+					}
 					ri++
 				}
+				ob.Replies = append(ob.Replies, ro)
 			case "remove":
 				ob.Removed++
 			}
 		}
+		ob.Unreported = len(ob.recv) - ri
 		// stray datagrams at other clients
 		for j, oc := range clients {
 			if j == op.Client {
@@ -367,7 +371,7 @@ func runUDPCase(cs *udpCaseSpec) (obs []udpOpObs, tports []int, fatal string, sh
 	return obs, tports, fatal, shutdownRemoved
 }
 
-var udpStatusCodes = map[string]int{"OK": 0, "ERR_CIPHER": 1, "ERR_READ_ADDRESS": 4, "ERR_ADDRESS_INVALID": 5, "ERR_ADDRESS_PRIVATE": 6, "ERR_RESOLVE_ADDRESS": 10, "ERR_PACK": 11}
+var udpStatusCodes = map[string]int{"OK": 0, "ERR_CIPHER": 1, "ERR_READ_ADDRESS": 4, "ERR_ADDRESS_INVALID": 5, "ERR_ADDRESS_PRIVATE": 6, "ERR_RESOLVE_ADDRESS": 10, "ERR_PACK": 11, "ERR_WRITE": 12}
 
 func udpOpTerm(op *udpOp, tports []int) string {
 	if op.Kind == "expire" {
@@ -384,13 +388,9 @@ func udpOpTerm(op *udpOp, tports []int) string {
 		for _, r := range op.Replies {
 			rs = append(rs, fmt.Sprintf("(%d, %d)", r[0], r[1]))
 		}
-		t := op.Target
-		if op.AKind == 1 {
-			t = 2
-		}
-		k = fmt.Sprintf("DHonest %d %d %d %d %d %d %d %s", op.C, op.S, op.Seed, op.AKind, tports[t], op.PLen, op.PSeed, cListT("(N * N)", rs))
+		k = fmt.Sprintf("DHonest %d %d %d %d %d %d %d %s", op.C, op.S, op.Seed, op.AKind, tports[op.AKind], op.PLen, op.PSeed, cListT("(N * N)", rs))
 	}
-	cip := []int{1, 1, 2, 3}[op.Client]
+	cip := []int{1, 1, 2, 3, 4}[op.Client]
 	return fmt.Sprintf("ODgram %d %d (%s)", op.Client+1, cip, k)
 }
 
@@ -413,7 +413,11 @@ func udpObsTerm(o *udpOpObs) string {
 	}
 	var rs []string
 	for _, r := range o.Replies {
-		rs = append(rs, fmt.Sprintf("{| r_from := %s; r_body := (%d, %d); r_tb := %s; r_cb := %s |}", cBytes(r.From), len(r.Body), cksum(r.Body), cZ(r.TB), cZ(r.CB)))
+		code, ok := udpStatusCodes[r.Status]
+		if !ok {
+			code = 97
+		}
+		rs = append(rs, fmt.Sprintf("{| r_status := %d; r_from := %s; r_body := (%d, %d); r_tb := %s; r_cb := %s |}", code, cBytes(r.From), len(r.Body), cksum(r.Body), cZ(r.TB), cZ(r.CB)))
 	}
 	return fmt.Sprintf("{| d_sent := %s; d_new := %s; d_report := %s; d_replies := %s; d_removed := %d |}", sent, nw, rep, cListT("robs", rs), o.Removed)
 }
